@@ -18,6 +18,6 @@ git checkout -q -- src
 cd /verif
 git -C /repo apply $M/patch.diff
 echo "== checks against the mutant"
-for c in $CHECKS; do VERIF_DEV_SKIP_PROOF=1 ./check $c --tier quick 2>&1 | grep -E "VIOLATION|FAIL|KNOWN" | head -2 | cut -c1-160; done
+for c in $CHECKS; do VERIF_DEV_SKIP_PROOF=1 ./check $c --tier quick 2>&1 | grep -E "VIOLATION|FAIL|KNOWN" | head -4 | cut -c1-160; done
 git -C /repo checkout -q -- .
 echo "== undone: $(git -C /repo status --short | wc -l) modified files in /repo"
